@@ -123,16 +123,20 @@ func ReadWithDirectory(r io.ReaderAt, size int64, cd []byte) (*Directory, error)
 				break
 			}
 			if tag == zip64ExtraID {
+				// APPNOTE 4.5.3: the record holds, in this order, only the
+				// fields whose 32-bit counterpart is 0xFFFFFFFF
 				e := extra[4 : 4+size]
-				if needUSize && size >= 8 {
+				if needUSize && len(e) >= 8 {
 					f.UncompressedSize = binary.LittleEndian.Uint64(e)
+					e = e[8:]
 				}
-				if needCSize && size >= 16 {
-					f.CompressedSize = binary.LittleEndian.Uint64(e[8:])
+				if needCSize && len(e) >= 8 {
+					f.CompressedSize = binary.LittleEndian.Uint64(e)
+					e = e[8:]
 					needCSize = false
 				}
-				if needOffset && size >= 24 {
-					f.Offset = binary.LittleEndian.Uint64(e[16:])
+				if needOffset && len(e) >= 8 {
+					f.Offset = binary.LittleEndian.Uint64(e)
 					needOffset = false
 				}
 				break
